@@ -209,8 +209,13 @@ RunClauses ==
              \* mirror image was one before (entries outside the logs do not matter)
              \o On("C08", LET n == Len(Pre.lg.pcost)
                               inside(L) == { a \in ToSet(L) : a >= 0 /\ a < n }
+                              blank(lg) == [lg EXCEPT !.absL = <<>>, !.status = "x", !.mode = "x"]
                           IN << <<"C08.H.absence-mirrored", Run.ret = "ok" =>
-                                   inside(Run.final.lg.absL) = { n - 1 - a : a \in inside(Pre.lg.absL) }>> >>)
+                                   inside(Run.final.lg.absL) = { n - 1 - a : a \in inside(Pre.lg.absL) }>>,
+                                \* every per-step log of every object is turned round (one that is
+                                \* not would no longer line up with the others), time is unchanged
+                                <<"C08.H.reversed", Run.ret = "ok" /\ LogsAligned(Pre.lg) =>
+                                   blank(Run.final.lg) = blank(MapLogs(Pre.lg, Rev))>> >>)
         [] Run.op = "remove_absence" ->
              On("C18", C18_H(Cfg, Run, Pre))
              \o (IF Run.ret = "ok" THEN On("C07", C07_AfterEdit(Cfg, Opts, Run.final.lg)) ELSE <<>>)   \* (these clauses guard their own indexing)
